@@ -20,6 +20,7 @@ import (
 	"crypto/sha512"
 	"errors"
 	"math/big"
+	"sync"
 
 	"golang.org/x/crypto/sha3"
 )
@@ -93,6 +94,9 @@ func init() {
 		}
 		if !c.IsIdentity(c.ScalarMult(c.L, c.Base())) {
 			panic(c.Name + ": [L]B != 0")
+		}
+		if b := c.Base(); !c.Equal(c.Double(b), c.Add(b, b)) || !c.Equal(c.Double(c.Identity()), c.Identity()) {
+			panic(c.Name + ": doubling disagrees with addition")
 		}
 	}
 }
@@ -176,7 +180,28 @@ func (c *Curve) Add(p, q *Point) *Point {
 	return &Point{X3, Y3, Z3}
 }
 
-func (c *Curve) Double(p *Point) *Point { return c.Add(p, p) }
+// Double is the dedicated projective doubling of the same paper (section 6):
+// B=(X+Y)^2, C=X^2, D=Y^2, E=aC, F=E+D, H=Z^2, J=F-2H,
+// X3=(B-C-D)J, Y3=F(E-D), Z3=FJ.
+func (c *Curve) Double(p *Point) *Point {
+	m := func(a, b *big.Int) *big.Int { return c.mod(new(big.Int).Mul(a, b)) }
+	xy := new(big.Int).Add(p.X, p.Y)
+	B := m(xy, xy)
+	C := m(p.X, p.X)
+	D := m(p.Y, p.Y)
+	E := m(c.A, C)
+	F := c.mod(new(big.Int).Add(E, D))
+	H := m(p.Z, p.Z)
+	J := new(big.Int).Sub(F, new(big.Int).Lsh(H, 1))
+	c.mod(J)
+	t := new(big.Int).Sub(B, C)
+	t.Sub(t, D)
+	c.mod(t)
+	X3 := m(t, J)
+	Y3 := m(F, c.mod(new(big.Int).Sub(E, D)))
+	Z3 := m(F, J)
+	return &Point{X3, Y3, Z3}
+}
 
 func (c *Curve) Neg(p *Point) *Point {
 	x := new(big.Int).Sub(c.P, p.X)
@@ -223,8 +248,29 @@ func (c *Curve) Affine(p *Point) (*big.Int, *big.Int) {
 	return c.mod(new(big.Int).Mul(p.X, zi)), c.mod(new(big.Int).Mul(p.Y, zi))
 }
 
-// InPrimeSubgroup: [L]P == identity.
-func (c *Curve) InPrimeSubgroup(p *Point) bool { return c.IsIdentity(c.ScalarMult(c.L, p)) }
+var (
+	subMu   sync.Mutex
+	subMemo = map[string]bool{}
+)
+
+// InPrimeSubgroup: [L]P == identity (memoised by the point's encoding; the
+// memo only saves time, the value is always the computed one).
+func (c *Curve) InPrimeSubgroup(p *Point) bool {
+	key := c.Name + string(c.Encode(p))
+	subMu.Lock()
+	v, ok := subMemo[key]
+	subMu.Unlock()
+	if ok {
+		return v
+	}
+	v = c.IsIdentity(c.ScalarMult(c.L, p))
+	subMu.Lock()
+	if len(subMemo) < 4096 {
+		subMemo[key] = v
+	}
+	subMu.Unlock()
+	return v
+}
 
 // Order returns the order of a small-order point (1,2,4,8) or 0 if larger.
 func (c *Curve) SmallOrder(p *Point) int {
